@@ -29,7 +29,7 @@ inductive Tok
 
 /-! ### evaluation -/
 
-inductive EvalErr | divZero | negShift | unknown (s : String)
+inductive EvalErr | divZero | negShift | outOfRange | unknown (s : String)
   deriving DecidableEq, Repr
 
 /-- Python's `|` on unbounded (two's complement) ints -/
@@ -42,7 +42,7 @@ def lor (a b : Int) : Int :=
     else Int.negSucc ((-a - 1).toNat &&& (-b - 1).toNat)
 
 /-- Python's `//`, `<<`, `>>`, `|` on unbounded ints -/
-def binop (op : BinOp) (a b : Int) : Except EvalErr Int :=
+def rawBinop (op : BinOp) (a b : Int) : Except EvalErr Int :=
   match op with
   | .add => .ok (a + b)
   | .sub => .ok (a - b)
@@ -51,6 +51,21 @@ def binop (op : BinOp) (a b : Int) : Except EvalErr Int :=
   | .shl => if b < 0 then .error .negShift else .ok (a * (2 ^ b.toNat : Nat))
   | .shr => if b < 0 then .error .negShift else .ok (a.fdiv (2 ^ b.toNat : Nat))
   | .bor => .ok (lor a b)
+
+def isShift : BinOp → Bool
+  | .shl => true
+  | .shr => true
+  | _ => false
+
+def inRange64 (v : Int) : Bool := -((2 ^ 64 : Nat) : Int) < v && v < ((2 ^ 64 : Nat) : Int)
+
+/-- the binop action of both evaluators: shift counts above 64 and values outside
+    (-2^64, 2^64) are diagnosed -/
+def binop (op : BinOp) (a b : Int) : Except EvalErr Int :=
+  if isShift op && b > 64 then .error .outOfRange
+  else match rawBinop op a b with
+    | .ok v => if inRange64 v then .ok v else .error .outOfRange
+    | .error e => .error e
 
 /-- the `p_expression_*` actions of the prophy parser / calc: value of an expression tree -/
 def eval (env : String → Option Int) : Ast → Except EvalErr Int
